@@ -117,6 +117,48 @@ def _(torch, p, phi):
     return p[0] * cp - p[1] * n, (p * torch.exp(1.0j * phi[:3]))[1].conj(), torch.exp(1.0j * phi).dtype
 
 
+@case("DHD operators idiom: is_nonzero, exp(1j*(phi+pi/2)).item(), alpha.conjugate(), select/unsqueeze/index_add_",
+      {"v": ((2, 4), C), "om": ((2,), F)}, angles=("phi",), tol=1e-12)
+def _(torch, v, om, phi):
+    vec = v.view(v.shape[0], 2, 2, 1)
+    inds = torch.tensor([1, 0])
+    alpha = 0.5 * (om[0] * torch.exp(1j * (phi[1] + torch.pi / 2))).item()
+    beta = 0.5 * torch.exp(1j * phi[0]).item()
+    r = torch.zeros_like(vec)
+    r.index_add_(2, inds[0], vec.select(2, 0).unsqueeze(2), alpha=alpha)
+    r.index_add_(2, inds[1], vec.select(2, 1).unsqueeze(2), alpha=alpha.conjugate())
+    r2 = torch.zeros_like(vec)
+    r2.index_add_(2, inds, vec, alpha=beta)
+    return r.view(v.shape[0], -1), r2, phi[0].is_nonzero(), alpha, beta
+
+
+@case("DHD operators idiom at the literal phase 0.0: exp(1j*(0 + pi/2)) is read as i", {"v": ((1, 2), C), "om": ((2,), F)},
+      tol=1e-12)
+def _(torch, v, om):
+    z = torch.tensor(0.0, dtype=torch.float64)
+    alpha = 0.5 * (om[1] * torch.exp(1j * (z + torch.pi / 2))).item()
+    vec = v.view(1, 1, 2, 1)
+    r = torch.zeros_like(vec)
+    inds = torch.tensor([1, 0])
+    r.index_add_(2, inds[0], vec.select(2, 0).unsqueeze(2), alpha=alpha)
+    r.index_add_(2, inds[1], vec.select(2, 1).unsqueeze(2), alpha=alpha.conjugate())
+    c = v.clone().view(1, 1, 2, 1)
+    c[:, :, 0] = 0.0
+    return r.view(1, -1), z.is_nonzero(), (z + 1.0).is_nonzero(), -c.view(1, 2), v
+
+
+@case("backward idiom: (-1j * python scalar * tensordot(Vg.conj(), v)).real stored into zeros_like(params)",
+      {"a": ((2, 4), C), "b": ((2, 4), C), "dS": ((2, 2), C), "p": ((3,), F), "s": ((), F)})
+def _(torch, a, b, dS, p, s):
+    dt = s.item()
+    g = torch.zeros_like(p)
+    e_l = dS.mT @ torch.stack([b[0], b[1]])
+    g[1] = (-1j * dt * torch.tensordot(a.conj(), e_l)).real
+    m = torch.zeros(3, 3, dtype=torch.float64)
+    m[0, 2] = (-1j * dt * torch.tensordot(a.conj(), b)).real
+    return g, m, e_l, len(p), p
+
+
 @case("cos/sin/exp of literal zeros", {})
 def _(torch):
     z = torch.zeros(2, dtype=torch.complex128)
@@ -538,6 +580,7 @@ def poly_selftest(seed, rounds=300):
     """random ring identities of poly.Poly checked numerically: evalf is a ring homomorphism that
     respects I^2=-1, s^2=1-c^2, r^2=P, conj/real/imag -- guards the normal form itself"""
     import cmath
+    from fractions import Fraction
     import poly
     rng = random.Random(f"poly-{seed}")
     fails = []
@@ -570,6 +613,30 @@ def poly_selftest(seed, rounds=300):
         # canonical form: algebraically equal expressions have identical dicts
         same = [((p + q) * (p - q)).same(p * p - q * q), (p * (q + 1)).same(p * q + p), ((s_ * s_ + c * c)).same(1),
                 ((r * r)).same(root_arg), (p - p).is_zero(), ((p * q) * p).same(p * (q * p))]
+        # differentiation (specifications that are derivatives): product rule as a canonical-form identity, central
+        # finite difference numerically, quarter turns of exp, substitution of the literal phase 0
+        for wrt in ("x0", "phi"):
+            dp, dq = poly.diff(p, wrt), poly.diff(q, wrt)
+            same.append(poly.diff(p * q, wrt).same(dp * q + p * dq))
+            same.append(poly.diff(p + q, wrt).same(dp + dq))
+            h = 1e-5
+            ep, em = dict(env), dict(env)
+            if wrt == "phi":
+                ep.update({"phi": ang + h, "cos(phi)": math.cos(ang + h), "sin(phi)": math.sin(ang + h)})
+                em.update({"phi": ang - h, "cos(phi)": math.cos(ang - h), "sin(phi)": math.sin(ang - h)})
+            else:
+                ep[wrt], em[wrt] = env[wrt] + h, env[wrt] - h
+            fd = (p.evalf(ep) - p.evalf(em)) / (2 * h)
+            n += 1
+            if abs(dp.evalf(env) - fd) > 1e-5 * (1 + abs(fd) + abs(p.evalf(env))):
+                fails.append(f"round {k}: d/d{wrt} = {dp.evalf(env)} but finite difference {fd} for p={p}"[:300])
+        kq = rng.randint(-8, 8)
+        if kq:
+            turn = Fraction(math.pi / 2) * kq                   # an exact integer multiple of the double pi/2
+            checks.append((poly.p_exp(poly.I * (phi + turn)).evalf(env), cmath.exp(1j * (ang + kq * math.pi / 2))))
+            checks.append((poly.p_exp(poly.I * poly.const(turn)).evalf(env), cmath.exp(1j * kq * math.pi / 2)))
+        env0 = dict(env, **{"phi": 0.0, "cos(phi)": 1.0, "sin(phi)": 0.0})
+        checks.append((poly.subs_const(p, {"cos(phi)": 1, "sin(phi)": 0, "x1": 0}).evalf(dict(env0, x1=7.0)), p.evalf(dict(env0, x1=0.0))))
         for a, b in checks:
             n += 1
             if abs(a - b) > 1e-8 * (1 + abs(b)):
